@@ -812,6 +812,37 @@ func table(in json.RawMessage, res *vh.Result) error {
 						}
 					}
 				}
+				// "for any byte stream ... never panics": the same stream with one bit of the first 16 bytes
+				// flipped; no expectation from the model, only: no panic, the reader terminates with an error,
+				// what it wrote are well-formed control frames
+				if ri%4 == 0 && len(r.Inp.Fr) > 0 {
+					rng := rand.New(rand.NewSource(seed*7919 + int64(ri)))
+					isServer := ri%8 == 0
+					b := serialise(r.Inp, isServer, ri, rng)
+					if len(b.wire) > 0 {
+						k := rng.Intn(min(len(b.wire), 16))
+						b.wire[k] ^= 1 << uint(rng.Intn(8))
+						o := runConn(r.Inp, b.wire, isServer, ri/4%2, len(r.Inp.Fr), rng)
+						local["noise_runs"]++
+						bad := ""
+						switch {
+						case o.panicV != nil:
+							bad = fmt.Sprintf("reader panicked: %v", o.panicV)
+						case o.class == "none":
+							bad = o.errText
+						case o.badW != "":
+							bad = o.badW
+						}
+						if bad != "" {
+							sig := "noise:bad-write"
+							if o.panicV != nil {
+								sig = "noise:panic"
+							}
+							res.Violate(prop, sig, bad+" -- bit-flipped stream "+fmt.Sprintf("% x", b.wire[:min(len(b.wire), 64)])+" derived from "+describe(r, b, isServer, ri/4%2),
+								map[string]any{"row": r, "isServer": isServer, "wire_hex": fmt.Sprintf("%x", b.wire[:min(len(b.wire), 256)])})
+						}
+					}
+				}
 				local["exp:"+r.Res.Kind]++
 				if len(r.Res.Alt) > 0 {
 					local["rows_with_alternatives"]++
